@@ -9,9 +9,9 @@ from vf.ref.pep import M, Iv, Pep, Rule
 PA = 'peptacular.proforma.proforma_parser.ProFormaAnnotation.'
 DECIDING = ['peptacular.sequence.sequence_funcs.get_mods', 'peptacular.sequence.sequence_funcs.add_mods', PA + '__eq__']
 RULE = ('generated annotations (all kinds, several modifications per position, multipliers) and every single-field '
-        'perturbation of them (value, multiplier, position, interval bound/flag, charge, adducts, label, rule target, residue, '
+        'perturbation of them (value, value differing only in letter case / prefix case / last character, multiplier, position, interval bound/flag, charge, adducts, label, rule target, residue, '
         'dropped or duplicated modification, N/C swap); post-conditions: add_mods(strip_mods(s), get_mods(s)) == s and the '
-        'pop_mods variant, create_annotation(**a.dict()) == a, copy() equal and sharing no mutable object (and edits of the '
+        'pop_mods variant (module function and the pop_mods()/add_mod_dict() methods), create_annotation(**a.dict()) == a, copy() equal and sharing no mutable object (and edits of the '
         'copy leave the source unchanged), strip_mods leaves residues only; == reflexive, symmetric, insensitive to the '
         'order of modifications at one position, False (both directions) for every perturbation. signature = (clause, '
         'perturbation kind, modification placements); non-trivial = at least two modification kinds')
@@ -89,6 +89,29 @@ def perturbations(rng, p: Pep):
         if lab.startswith('res') and not lst:
             del q.res[int(lab[3:])]
         yield 'drop', q
+        # near values: a textual value that differs only in letter case (of its prefix, or of the whole value) or by its
+        # last character is a different modification value
+        txt = [(lb, j) for lb, l0 in lists for j, x in enumerate(l0) if isinstance(x.val(), str)]
+        if txt:
+            lb, j = rng.choice(txt)
+            t = dict(lists)[lb][j].text
+            variants = []
+            if ':' in t and t.split(':', 1)[0].isalpha():
+                pre, rest = t.split(':', 1)
+                variants.append(('value-prefix-case', (pre.lower() if pre != pre.lower() else pre.upper()) + ':' + rest))
+            if t.swapcase() != t:
+                variants.append(('value-case', t.swapcase()))
+                k = next(i for i, ch in enumerate(t) if ch.swapcase() != ch)
+                variants.append(('value-case', t[:k] + t[k].swapcase() + t[k + 1:]))
+            if len(t) > 2 and t[-1].isalpha() and t[-2].isalpha():
+                variants.append(('value-last-char', t[:-1]))
+            if variants:
+                kind, t2 = rng.choice(variants)
+                q = p.copy()
+                l2 = dict(mod_lists(q))[lb]
+                l2[j] = M(t2, l2[j].mult, kind=l2[j].kind)
+                if isinstance(l2[j].val(), str) and l2[j].val() != dict(lists)[lb][j].val():
+                    yield kind, q
     # one copy of a repeated modification becomes another modification that is already present at that position:
     # same length, same set of distinct modifications, different multiset
     for lab, lst in lists:
@@ -188,6 +211,21 @@ def run_case(ctx, st, pt, p: Pep):
         ctx.decided()
         if back2 != s or stripped != p.seq:
             ctx.violation('add_mods(pop_mods)-differs', {'canonical': s, 'rebuilt': back2, 'stripped': stripped})
+        # method form: pop_mods() leaves the residues only and add_mod_dict() of what it returned restores the peptide
+        m2 = a.copy()
+        d3 = m2.pop_mods()
+        bare = m2.serialize()
+        m2.add_mod_dict(d3)
+        cnt('pop_mods-add_mod_dict')
+        ctx.decided()
+        if bare != p.seq or not (m2 == a and a == m2) or m2.serialize() != s:
+            ctx.violation('add_mod_dict(pop_mods())-differs', {'canonical': s, 'after_pop': bare, 'rebuilt': m2.serialize(),
+                                                               'popped': repr(d3)[:300]})
+        m3 = a.strip()
+        m3.add_mod_dict(a.mod_dict())
+        ctx.decided()
+        if not (m3 == a) or m3.serialize() != s:
+            ctx.violation('strip().add_mod_dict(mod_dict())-differs', {'canonical': s, 'rebuilt': m3.serialize()})
         ctx.decided()
         if pt.strip_mods(s) != p.seq or pt.strip_mods(a) != p.seq:
             ctx.violation('strip_mods-changed-residues-or-left-modifications', {'canonical': s,
